@@ -1,3 +1,4 @@
 import Cgm.Lemmas.AuditCmd
 import Cgm.Props.C15
+import Cgm.Props.C15b
 #audit_namespace Cg.C15
